@@ -57,7 +57,84 @@ import (
 // ---------------------------------------------------------------------------------------
 // universe
 
-var spellings = [][]string{{"alice", "Alice", "ALICE"}, {"bob", "Bob"}, {"carol"}}
+// fold is the reference's reading of the statement's "case-insensitive username": two spellings
+// name the same player iff strings.ToLower maps them to the same string. This deliberately
+// mirrors the folding rule registration itself uses (registerConnection keys the name index with
+// strings.ToLower(Username())): the statement does not say which Unicode case folding is meant,
+// so the reading under which the registering code is right is taken, and every OTHER place
+// (lookups, canRegister, unregister) is then required to agree with it. Consequences of that
+// rule that look odd but are not defects: "İx" (U+0130) folds to "ix" and so is the same name as
+// "IX"; "ıx" (U+0131, dotless) is a name of its own although its upper-case spelling "IX" is not.
+func fold(s string) string { return strings.ToLower(s) }
+
+// allSpellings is the name universe; the name classes are derived from it with fold (first
+// appearance order), nothing about which spellings belong together is hand-written.
+var allSpellings = []string{
+	"alice", "Alice", "ALICE", "bob", "Bob", "carol",
+	// non-ASCII letters: capitals that only a Unicode-aware folding lower-cases, with and without
+	// ASCII capitals next to them
+	"ärmel", "Ärmel", "ÄRMEL", "ÄRmel", "émile_2", "Émile_2", "ÉMILE_2",
+	// the dotted/dotless i edge of strings.ToLower (see fold)
+	"ix", "İx", "IX", "ıx",
+}
+
+var (
+	spellings [][]string       // by name class
+	classKey  []string         // fold key of each class
+	classIdx  = map[string]int{} // fold key -> class
+)
+
+const nClassesTotal = 7
+
+func init() {
+	for _, sp := range allSpellings {
+		k := fold(sp)
+		i, ok := classIdx[k]
+		if !ok {
+			i = len(spellings)
+			classIdx[k] = i
+			classKey = append(classKey, k)
+			spellings = append(spellings, nil)
+		}
+		spellings[i] = append(spellings[i], sp)
+	}
+	if len(spellings) != nClassesTotal {
+		panic(fmt.Sprintf("c11: %d name classes derived, regState is sized for %d", len(spellings), nClassesTotal))
+	}
+}
+
+// classOf returns the name class a lookup spelling addresses (it need not be a spelling any
+// session uses: the upper-case spelling of "ıx" addresses the class of "ix").
+func classOf(sp string) int {
+	i, ok := classIdx[fold(sp)]
+	if !ok {
+		panic("c11: spelling outside the universe: " + sp)
+	}
+	return i
+}
+
+// lookupSpellings: every spelling of the universe plus its strings.ToLower / strings.ToUpper
+// forms, as far as they stay inside the universe's classes.
+var lookupSpellings = sync.OnceValue(func() []string {
+	seen := map[string]bool{}
+	var out []string
+	for _, sp := range allSpellings {
+		for _, v := range []string{sp, strings.ToLower(sp), strings.ToUpper(sp)} {
+			if _, ok := classIdx[fold(v)]; ok && !seen[v] {
+				seen[v] = true
+				out = append(out, v)
+			}
+		}
+	}
+	return out
+})
+
+// palettes of name classes a case draws from: the first class is the contended one
+var palettes = [][]string{
+	{"alice", "bob", "carol"}, {"alice", "bob", "carol"}, {"alice", "ärmel", "bob"},
+	{"ärmel", "alice", "émile_2"}, {"ärmel", "émile_2", "carol"}, {"émile_2", "ärmel", "bob"},
+	{"ix", "ıx", "alice"}, {"ıx", "ix", "ärmel"}, {"ix", "ıx", "émile_2"},
+}
 
 var uuids = []uuid.UUID{
 	uuid.OfflinePlayerUUID("verif-u0"), uuid.OfflinePlayerUUID("verif-u1"), uuid.OfflinePlayerUUID("verif-u2"),
@@ -96,13 +173,14 @@ type caseSpec struct {
 func genCase(rng *rand.Rand) caseSpec {
 	c := caseSpec{Mode: rng.Intn(3)}
 	nClasses := 2 + rng.Intn(2)
+	pal := palettes[rng.Intn(len(palettes))]
 	n := 2 + rng.Intn(5)
 	for i := 0; i < n; i++ {
 		var s sessSpec
 		if rng.Intn(10) < 7 {
-			s.N = 0
+			s.N = classIdx[pal[0]]
 		} else {
-			s.N = 1 + rng.Intn(nClasses-1)
+			s.N = classIdx[pal[1+rng.Intn(nClasses-1)]]
 		}
 		sp := spellings[s.N]
 		k := rng.Intn(len(sp))
@@ -138,9 +216,16 @@ func genCase(rng *rand.Rand) caseSpec {
 			l.U = c.Sessions[rng.Intn(n)].U
 		default:
 			l.Kind = kLookupName
-			l.N = c.Sessions[rng.Intn(n)].N
-			sp := spellings[l.N]
+			sp := spellings[c.Sessions[rng.Intn(n)].N]
 			l.Name = sp[rng.Intn(len(sp))]
+			// also the lower-/upper-cased form of a spelling, which may address another class
+			switch rng.Intn(4) {
+			case 0:
+				l.Name = strings.ToUpper(l.Name)
+			case 1:
+				l.Name = strings.ToLower(l.Name)
+			}
+			l.N = classOf(l.Name)
 		}
 		c.Lookups = append(c.Lookups, l)
 	}
@@ -170,8 +255,8 @@ type opIn struct {
 }
 
 type regState struct {
-	IDs   [3]int8 // session index+1 registered under uuid i
-	Names [3]int8 // session index+1 registered under lower-cased name class j
+	IDs   [3]int8              // session index+1 registered under uuid i
+	Names [nClassesTotal]int8 // session index+1 registered under name class j (fold key)
 	Done  uint16  // sessions whose login attempt has been decided (teardown may follow)
 }
 
@@ -500,16 +585,16 @@ func (w *world) walk() *finding {
 		}
 		sort.Strings(pl)
 		names := map[string]string{}
-		for _, cl := range spellings {
-			for _, sp := range cl {
-				names[sp] = fmt.Sprintf("s%d", w.who(w.px.PlayerByName(sp))-1)
+		for _, sp := range lookupSpellings() {
+			if q := w.px.PlayerByName(sp); q != nil {
+				names[sp] = fmt.Sprintf("s%d", w.who(q)-1)
 			}
 		}
 		ids := map[string]string{}
 		for i := range uuids {
 			ids[fmt.Sprintf("u%d", i)] = fmt.Sprintf("s%d", w.who(byID[i])-1)
 		}
-		return map[string]any{"Players()": pl, "PlayerCount()": count, "Player(id)": ids, "PlayerByName": names, "note": "s-1 means nil"}
+		return map[string]any{"Players()": pl, "PlayerCount()": count, "Player(id)": ids, "PlayerByName": names, "note": "s-1 means nil; PlayerByName lists only the spellings that found somebody"}
 	}
 	// I5: a registered player stays findable until its own teardown
 	for _, s := range w.sess {
@@ -520,8 +605,10 @@ func (w *world) walk() *finding {
 		lostID := byID[s.spec.U] != me
 		lostName := false
 		if !w.exemptByName(s) {
-			for _, sp := range spellings[s.spec.N] {
-				if w.px.PlayerByName(sp) != me {
+			// every spelling that folds to this session's name, including the lower-/upper-cased
+			// forms of the universe's spellings
+			for _, sp := range lookupSpellings() {
+				if classOf(sp) == s.spec.N && w.px.PlayerByName(sp) != me {
 					lostName = true
 				}
 			}
@@ -579,11 +666,9 @@ func (w *world) walk() *finding {
 				return &finding{"name-and-id-lookups-differ:listed-player-not-found-by-id", "a player listed by Players() is not the one Player(id) returns for its id", snapshot()}
 			}
 		}
-		for _, cl := range spellings {
-			for _, sp := range cl {
-				if q := w.px.PlayerByName(sp); q != nil && w.px.Player(q.ID()) != q {
-					return &finding{"name-and-id-lookups-differ:named-player-not-found-by-id", "PlayerByName returns a player that Player(id) does not", snapshot()}
-				}
+		for _, sp := range lookupSpellings() {
+			if q := w.px.PlayerByName(sp); q != nil && w.px.Player(q.ID()) != q {
+				return &finding{"name-and-id-lookups-differ:named-player-not-found-by-id", "PlayerByName returns a player that Player(id) does not", snapshot()}
 			}
 		}
 	}
@@ -615,18 +700,16 @@ func (w *world) diffModel(st regState) (string, string) {
 			}
 		}
 	}
-	for n, cl := range spellings {
-		for _, sp := range cl {
-			got := w.who(w.px.PlayerByName(sp))
-			want := int(st.Names[n])
-			if got != want {
-				if want != 0 && got == 0 {
-					lostName = true
-				} else if want == 0 {
-					other = "stale-name-entry"
-				} else {
-					other = "wrong-name-entry"
-				}
+	for _, sp := range lookupSpellings() {
+		got := w.who(w.px.PlayerByName(sp))
+		want := int(st.Names[classOf(sp)])
+		if got != want {
+			if want != 0 && got == 0 {
+				lostName = true
+			} else if want == 0 {
+				other = "stale-name-entry"
+			} else {
+				other = "wrong-name-entry"
 			}
 		}
 	}
@@ -691,13 +774,16 @@ const lockSig = "registerConnection-returns-false-holding-registry-lock"
 func TestC11(t *testing.T) {
 	r := lib.Start(t, "C11")
 	defer r.Finish()
-	r.Rule("each case is a fresh Proxy (offline / online / online+kick-existing) with 2-6 login sessions drawn from 3 name classes with case variants and 3 UUIDs (duplicates, same-name-other-uuid, same-uuid-other-name) plus 1-5 lookups; (a) deterministic: the session steps canRegister/register/rejected-login-disconnect/own-disconnect and the lookups are interleaved by the PRNG on one goroutine and checked against the set model after every step; (b) concurrent: the sessions run on 2-8 goroutines with PRNG yields in the canRegister->register window, history decided by porcupine + quiescent invariant walker; distinct = distinct (mode, sessions, schedule, observed results)")
+	r.Rule("each case is a fresh Proxy (offline / online / online+kick-existing) with 2-6 login sessions drawn from a palette of 2-3 of 7 name classes (ASCII and non-ASCII letters with case variants: alice/Alice/ALICE, ärmel/Ärmel/ÄRMEL/ÄRmel, émile_2/Émile_2/ÉMILE_2, ix/İx/IX and dotless ıx; classes derived with strings.ToLower, the folding registration uses) and 3 UUIDs (duplicates, same-name-other-uuid, same-uuid-other-name) plus 1-5 lookups (names also in their strings.ToLower/ToUpper forms); (a) deterministic: the session steps canRegister/register/rejected-login-disconnect/own-disconnect and the lookups are interleaved by the PRNG on one goroutine and checked against the set model after every step; (b) concurrent: the sessions run on 2-8 goroutines with PRNG yields in the canRegister->register window, history decided by porcupine + quiescent invariant walker; distinct = distinct (mode, sessions, schedule, observed results); (c) end-to-end: each scenario is a fresh live proxy (offline / online with a scripted session server / online+kick-existing) with 4-14 REAL logins (protocols 340-775) whose profile a GameProfileRequestEvent subscriber or the session server's account may replace (custom UUID, custom name incl. case variants and non-ASCII letters with/without ASCII capitals, same name or same UUID as another session), run as 8-20 steps: solo logins, bursts of 2-4 concurrent logins (half of them held at a barrier inside the LoginEvent) mixed with the disconnect of a live session, logins denied at the LoginEvent, clients closing at login success, ends by client close / proxy kick / rejection / kick by a newer session, rejoins of an identity after its own disconnect; a prober looks every connected session up by id and by own/lower/upper-cased name all the time, a walker compares Players/PlayerCount/id/name lookups with the connected set after every step, admissions are judged against the connected set; distinct = (scenario, outcomes)")
 	r.Assume("porcupine v1.3.0 decides linearizability of each recorded history against the sequential set model")
 	r.Assume("call/return stamps come from one atomic counter taken at the client boundary; a teardown's return stamp is taken in a DisconnectEvent subscriber, its call stamp is the session's first login call (sound lower bound)")
+	r.Assume("\"case-insensitive username\" is read as equality under strings.ToLower, the folding registerConnection itself keys the name index with; every lookup, canRegister and unregister is required to agree with it")
+	r.Assume("e2e: a session's identity is the profile the proxy holds after the GameProfileRequestEvent subscribers ran (observed in the monitor's subscriber); sessions are told apart by remote address; the connected set is {PostLoginEvent seen, DisconnectEvent not seen}; a lookup inside an interval is judged only if the monitor had not initiated that session's end and (kick mode) no login with the same UUID had reached its GameProfileRequestEvent when the lookup returned")
 	r.Assume("hook verif_hooks_c11.go builds connectedPlayers with the deps HandleConn uses and installs Gate's own initialConnectSessionHandler so that Close->Disconnected->teardown is the real path")
 
 	runSequential(r)
 	runConcurrent(r)
+	runE2E(r)
 }
 
 // ---------------------------------------------------------------------------------------
